@@ -349,26 +349,129 @@ func ruleEscSet(c *Ctx, h *htxEngine) {
 		}
 		return
 	}
-	// bytes replaced: comparisons of the ranged element with a constant whose true edge dominates an append of an entity
+	// bytes replaced: for every byte value d, the constants appended during one iteration of the classification loop on
+	// the paths feasible when the scanned byte is d (BSET path-conditioning; a constant selected through a phi of string
+	// constants is resolved along the path).
 	want := map[byte][]string{'&': {"&amp;"}, '<': {"&lt;"}, '>': {"&gt;"}, '"': {"&quot;", "&#34;"}, '\'': {"&#39;", "&apos;"}}
 	replaced := map[byte]string{}
-	for _, b := range fn.Blocks {
-		iff := blockIf(b)
-		if iff == nil {
-			continue
+	{
+		var src ssa.Value
+		if len(fn.Params) == 2 {
+			src = fn.Params[1]
 		}
-		bo, ok := iff.Cond.(*ssa.BinOp)
-		if !ok || bo.Op != token.EQL {
-			continue
+		isScan := func(v ssa.Value) bool {
+			ld, ok := v.(*ssa.UnOp)
+			if !ok || ld.Op != token.MUL {
+				return false
+			}
+			ia, ok := ld.X.(*ssa.IndexAddr)
+			return ok && ia.X == src
 		}
-		k, ok := constInt(bo.Y)
-		if !ok {
-			continue
+		var loop *natLoop
+		for _, l := range naturalLoops(fn) {
+			l := l
+			for b := range l.body {
+				for _, in := range b.Instrs {
+					if v, ok := in.(ssa.Value); ok && isScan(v) {
+						loop = &l
+					}
+				}
+			}
 		}
-		tgt := b.Succs[0]
-		for _, in := range tgt.Instrs {
-			if ev, ok := h.events[fn][in]; ok && ev.kind == evConst && strings.HasPrefix(ev.s, "&") && strings.HasSuffix(ev.s, ";") {
-				replaced[byte(k)] = ev.s
+		if loop == nil {
+			c.Undecided("ESC-SET", "escapeHTML:loop", fn.Pos(), "no loop reading the bytes of the source parameter found")
+		} else {
+			bs := newBSET(c.P)
+			mixed := map[byte][]string{}
+			other := map[byte][]string{}
+			for d := 0; d < 256; d++ {
+				st := &evalState{e: bs, fn: fn, isSym: isScan, d: int64(d), from: make([]int, len(fn.Blocks))}
+				for k := range st.from {
+					st.from[k] = -2
+				}
+				seqs := map[string]bool{}
+				visits := make([]int, len(fn.Blocks))
+				budget := 5000
+				var dfs func(b *ssa.BasicBlock, seq string)
+				dfs = func(b *ssa.BasicBlock, seq string) {
+					if budget <= 0 {
+						return
+					}
+					budget--
+					if visits[b.Index] >= 1 {
+						return
+					}
+					visits[b.Index]++
+					defer func() { visits[b.Index]-- }()
+					for _, in := range b.Instrs {
+						ev, ok := h.events[fn][in]
+						if !ok {
+							continue
+						}
+						switch ev.kind {
+						case evConst:
+							seq += ev.s
+						case evRaw:
+							// a string selected by a phi of constants?
+							if call, isCall := in.(*ssa.Call); isCall && len(call.Call.Args) == 2 {
+								if str, ok := stringOnPath(st, call.Call.Args[1]); ok {
+									seq += str
+								}
+							}
+						}
+					}
+					succs := b.Succs
+					if iff := blockIf(b); iff != nil {
+						st.why = ""
+						if v, ok := st.eval(iff.Cond); ok {
+							if v != 0 {
+								succs = b.Succs[:1]
+							} else {
+								succs = b.Succs[1:]
+							}
+						}
+					}
+					for _, sc := range succs {
+						if sc == loop.header || !loop.body[sc] {
+							seqs[seq] = true
+							continue
+						}
+						prev := st.from[sc.Index]
+						st.from[sc.Index] = b.Index
+						dfs(sc, seq)
+						st.from[sc.Index] = prev
+					}
+				}
+				// start at the successors of the header that are in the body
+				for _, sc := range loop.header.Succs {
+					if loop.body[sc] {
+						st.from[sc.Index] = loop.header.Index
+						dfs(sc, "")
+					}
+				}
+				var list []string
+				for q := range seqs {
+					list = append(list, q)
+				}
+				sort.Strings(list)
+				switch {
+				case len(list) == 1 && list[0] == "":
+					// copied verbatim
+				case len(list) == 1:
+					if _, special := want[byte(d)]; special {
+						replaced[byte(d)] = list[0]
+					} else {
+						other[byte(d)] = list
+					}
+				default:
+					mixed[byte(d)] = list
+				}
+			}
+			for b, l := range mixed {
+				c.Viol("ESC-SET", fmt.Sprintf("escapeHTML:%q:sometimes", b), fn.Pos(), fmt.Sprintf("byte %q is replaced on some paths only: %q", b, l))
+			}
+			for b, l := range other {
+				c.Viol("ESC-SET", fmt.Sprintf("escapeHTML:%q:mangled", b), fn.Pos(), fmt.Sprintf("byte %q, which needs no escaping, is replaced by %q", b, l))
 			}
 		}
 	}
@@ -432,6 +535,9 @@ func ruleEscSet(c *Ctx, h *htxEngine) {
 	// every other append in escapeHTML must be a sub-slice of src (verbatim run) — trusted arithmetic
 	for in, ev := range h.events[fn] {
 		if ev.kind == evRaw {
+			if call, isCall := in.(*ssa.Call); isCall && len(call.Call.Args) == 2 && isStringPhiOfConsts(call.Call.Args[1]) {
+				continue
+			}
 			if !strings.HasPrefix(ev.desc, "src") {
 				c.Viol("ESC-SET", "escapeHTML:verbatim", in.Pos(), "escapeHTML appends something other than a run of its source: "+ev.desc)
 			}
@@ -649,4 +755,55 @@ func ruleCharRefAlphabet(c *Ctx) {
 	if n < 1 {
 		c.Undecided("CHARREF-ALPHABET", "instance-count", fn.Pos(), fmt.Sprintf("%d scanning loops recognised in parseCharacterEscape; every loop of the function is inspected and at least one must scan a reference body", n))
 	}
+}
+
+// stringOnPath resolves a string value that is a constant, or a phi of string constants, along the path recorded in st.
+func stringOnPath(st *evalState, v ssa.Value) (string, bool) {
+	for d := 0; d < 8; d++ {
+		if s, ok := constString(v); ok {
+			return s, true
+		}
+		ph, ok := v.(*ssa.Phi)
+		if !ok {
+			return "", false
+		}
+		from := st.from[ph.Block().Index]
+		found := false
+		for i, pr := range ph.Block().Preds {
+			if pr.Index == from {
+				v = ph.Edges[i]
+				found = true
+				break
+			}
+		}
+		if !found {
+			return "", false
+		}
+	}
+	return "", false
+}
+
+func isStringPhiOfConsts(v ssa.Value) bool {
+	seen := map[ssa.Value]bool{}
+	var w func(v ssa.Value) bool
+	w = func(v ssa.Value) bool {
+		if seen[v] {
+			return true
+		}
+		seen[v] = true
+		if _, ok := constString(v); ok {
+			return true
+		}
+		if ph, ok := v.(*ssa.Phi); ok {
+			for _, e := range ph.Edges {
+				if !w(e) {
+					return false
+				}
+			}
+			return true
+		}
+		return false
+	}
+	_, isPhi := v.(*ssa.Phi)
+	return isPhi && w(v)
 }
